@@ -308,7 +308,7 @@ theorem exec_noRep (s : Sys) (t : Nat) (op : Op) (hop : ∀ c, op ≠ .setReport
     simp only [exec]
     split
     · exact q h rfl
-    · have := (h.withG { s.g with drainedBy := (drainAllTagged s.rxs).reverse ++ s.g.drainedBy }).finishCycle (drainAll s.rxs).1 (drainAll s.rxs).2 []
+    · have := (h.withG { s.g with drainedBy := (drainAllTagged s.rxs).reverse ++ s.g.drainedBy }).finishCycleP (drainAll s.rxs).1 (drainAll s.rxs).2 []
       have e2 : s.cycle.2 = none := this.2
       refine ⟨this.1, ?_⟩
       show InertObs _ (Obs.report s.cycle.2)
@@ -318,7 +318,7 @@ theorem exec_noRep (s : Sys) (t : Nat) (op : Op) (hop : ∀ c, op ≠ .setReport
     simp only [exec]
     split
     · exact q h rfl
-    · have := (h.withG { s.g with drainedBy := (drainAllTagged s.rxs).reverse ++ s.g.drainedBy }).finishCycle (drainAll s.rxs).1 (drainAll s.rxs).2 []
+    · have := (h.withG { s.g with drainedBy := (drainAllTagged s.rxs).reverse ++ s.g.drainedBy }).finishCycleP (drainAll s.rxs).1 (drainAll s.rxs).2 []
       have e2 : s.cycle.2 = none := this.2
       refine ⟨this.1, ?_⟩
       show InertObs _ (Obs.report s.cycle.2)
